@@ -155,8 +155,9 @@ func emptyTree(g geom.Geometry) Event {
 }
 
 func boundaryGen(r *rand.Rand, n int, tier string, emit func(Case)) {
-	for i := 0; i < n; i++ {
-		if r.Intn(12) == 0 {
+	for i := 0; i < n+bigExtra(n); i++ {
+		big := i >= n // large sizes come last
+		if !big && r.Intn(12) == 0 {
 			emit(sliverCase(r))
 			continue
 		}
@@ -165,7 +166,17 @@ func boundaryGen(r *rand.Rand, n int, tier string, emit func(Case)) {
 			l.N = 9 + r.Intn(8)
 		}
 		var g geom.Geometry
-		switch r.Intn(8) {
+		sel := r.Intn(8)
+		if big {
+			l, sel = bigLattice(r), -1
+		}
+		switch sel {
+		case -1:
+			if r.Intn(3) == 0 {
+				g = l.bigPolygon().AsGeometry() // many holes, or rings of many vertices: where a point on the surface is hardest to place
+			} else {
+				g = l.bigAny()
+			}
 		case 0, 2:
 			if r.Intn(2) == 0 {
 				l.N = 9 + r.Intn(8)
